@@ -146,9 +146,15 @@ def verify_function(prop, contract, callees, lib, timeout_hint=None, hooks=None)
             for p in paths:
                 if p.status == "return":
                     n_ret += 1
+                    res.ret_paths = getattr(res, "ret_paths", []) + [(ctx.fnshort, list(p.pc))]
                     line = getattr(p, "ret_line", fs.end_lineno)
                     for label, e in contract.ensures.items():
-                        g = ex.spec(e, p, {"result": p.ret})
+                        try:
+                            g = ex.spec(e, p, {"result": p.ret})
+                        except Unsupported as err:
+                            res.clause_errors = getattr(res, "clause_errors", []) + [
+                                f"{ctx.fnshort}: clause '{label}' cannot be evaluated on the path returning at line {line}: {err}"]
+                            continue
                         ctx.vc(f"{label}@{line}", p, g, "post", line, note=e)
                 elif p.status == "raise":
                     for label, e in contract.exc_ensures.items():
@@ -159,6 +165,8 @@ def verify_function(prop, contract, callees, lib, timeout_hint=None, hooks=None)
             res.error = f"{ctx.fnshort}: outside the subset: {e}"
         except z3.Z3Exception as e:
             res.error = f"{ctx.fnshort}: term construction failed: {e}\n{traceback.format_exc()[-600:]}"
+        if getattr(res, "clause_errors", None) and not res.error:
+            res.error = "; ".join(res.clause_errors[:3])
         res.vcs += ctx.vcs
         res.trusted = getattr(res, "trusted", set()) | ctx.trusted_used
     return res
